@@ -162,7 +162,7 @@ def _hash_check(pid, tier, seed, replay, per_quick, per_thorough, rejects, rule_
         chk.cov.update({"states": 1, "transitions": 1, "traces_validated_against_impl": 1, "samples": [replay]})
         return chk.finish()
     exe = build.build_driver("hash", HASH_SRCS)
-    model_check(chk, [("HashImpl", "HashImpl_%s.cfg" % pid, 12, 900)] + ([("HashImpl", "HashImpl_2x2.cfg", 12, 1500), ("HashImpl", "HashImpl_refine.cfg", 12, 900)] if tier != "quick" else []))
+    model_check(chk, [("HashImpl", "HashImpl_%s.cfg" % pid, 12, 900)] + ([("HashImpl", "HashImpl_2x2.cfg", 12, 1500), ("HashImpl", "HashImpl_refine.cfg", 12, 900), ("HashImpl", "HashImpl_sb.cfg", 12, 900)] if tier != "quick" else []))
     jobs = hash_jobs(seed * 7919 + int(pid[1:]), per_quick if tier == "quick" else per_thorough, rejects=rejects)
     outs = run_jobs(jobs, exe, "TraceHash")
     nb, ne = collect(chk, outs, props)
@@ -984,11 +984,13 @@ def check_c18(tier, seed, replay=None, selftest=False):
 
 
 # ------------------------------------------------------------------------------------------ HashImpl <-> code (lane level)
-LANE_MODEL_FAMS = {"sse", "avx", "avx2", "avx512", "sse_ni"}       # avx512_ni (SHA-NI x1/x2 below a threshold), base, sb_sse4: not modelled
+LANE_MODEL_FAMS = {"sse", "avx", "avx2", "avx512", "sse_ni", "avx512_ni"}       # base, sb_sse4 (no lanes): not modelled
+SB_THRESHOLD = {("sha1", "avx512_ni"): 6, ("sha256", "avx512_ni"): 6}     # *_NI_SB_THRESHOLD_AVX512; every other family: 1
 
 
 def lane_env(alg, fam, maxn):
-    return {"MAXN": str(maxn), "NLANES": str(gen_hash.lanes(alg, fam)), "BLOCK": str(gen_hash.BLOCK[alg]), "LENF": str(gen_hash.LENF[alg])}
+    return {"MAXN": str(maxn), "NLANES": str(gen_hash.lanes(alg, fam)), "BLOCK": str(gen_hash.BLOCK[alg]), "LENF": str(gen_hash.LENF[alg]),
+            "SBTHR": str(SB_THRESHOLD.get((alg, fam), 1))}
 
 
 def tlc_hash_behaviours(nlanes, num, seed):
